@@ -1,51 +1,36 @@
 //! Scratch probe (not a registered check).
+use jrv::handlers::{self, Log};
+use jrv::memsrv::*;
 use jrv::runner::*;
-use jsonrpsee_server::{RpcModule, ServerConfig};
+use jsonrpsee_server::ServerConfig;
 use std::time::Duration;
-use tokio::io::AsyncWriteExt;
-
-const UPGRADE_REQ: &str = "GET / HTTP/1.1\r\nHost: localhost\r\nUpgrade: websocket\r\nConnection: Upgrade\r\nSec-WebSocket-Key: dGhlIHNhbXBsZSBub25jZQ==\r\nSec-WebSocket-Version: 13\r\n\r\n";
 
 fn main() {
-	jrv::tcp::install_branch_counter();
-	block_on_stress_io(4, async {
-		let m = RpcModule::new(());
-		let server = jsonrpsee_server::Server::builder().set_config(ServerConfig::builder().max_connections(100).build()).build("127.0.0.1:0").await.unwrap();
-		let addr = server.local_addr().unwrap();
-		let _h = server.start(m);
-		for variant in 0..8u32 {
-			let b0 = jrv::tcp::branches();
-			for _ in 0..300 {
-				let mut s = jrv::tcp::connect(addr).await.unwrap();
-				match variant {
-					0 => { let _ = s.write_all(UPGRADE_REQ.as_bytes()).await; jrv::tcp::reset(s); }
-					1..=5 => {
-						let _ = s.write_all(UPGRADE_REQ.as_bytes()).await;
-						let t = std::time::Instant::now();
-						let d = Duration::from_micros([0, 5, 15, 30, 60, 120][variant as usize]);
-						while t.elapsed() < d { std::hint::spin_loop(); }
-						jrv::tcp::reset(s);
-					}
-					6 => {
-						// request in two writes: the last byte and the reset back to back
-						let (a, b) = UPGRADE_REQ.as_bytes().split_at(UPGRADE_REQ.len() - 1);
-						let _ = s.write_all(a).await;
-						tokio::time::sleep(Duration::from_millis(1)).await;
-						let _ = s.write_all(b).await;
-						jrv::tcp::reset(s);
-					}
-					_ => {
-						// shutdown(write) first, then reset shortly after
-						let _ = s.write_all(UPGRADE_REQ.as_bytes()).await;
-						let _ = s.shutdown().await;
-						jrv::tcp::reset(s);
-					}
-				}
-				tokio::time::sleep(Duration::from_micros(300)).await;
-			}
-			tokio::time::sleep(Duration::from_millis(100)).await;
-			let b = jrv::tcp::branches();
-			println!("variant {variant}: upgrade_failed {} serve_failed {} accepted {}", b.upgrade_failed - b0.upgrade_failed, b.serve_connection_failed - b0.serve_connection_failed, b.accepted - b0.accepted);
+	block_on_virtual(async {
+		let log = Log::default();
+		let cfg = ServerConfig::builder().max_request_body_size(100).set_message_buffer_capacity(1).build();
+		let mut srv = MemServer::new(cfg, handlers::echo_module(log.clone()));
+		srv.duplex_capacity = 200;
+		let mut ws = srv.ws().await.unwrap();
+		ws.set_reading(false);
+		tokio::time::sleep(Duration::from_millis(2)).await;
+		for i in 0..6 {
+			let r = ws.send_text(&format!("{{\"jsonrpc\":\"2.0\",\"id\":{i},\"method\":\"echo_sync\",\"params\":[\"{}\"]}}", "p".repeat(30))).await;
+			println!("send {i}: {r:?}");
 		}
+		tokio::time::sleep(Duration::from_millis(5)).await;
+		let big = format!("{{\"jsonrpc\":\"2.0\",\"id\":777,\"method\":\"echo_sync\",\"params\":[\"{}\"]}}", "o".repeat(60));
+		println!("big len {}", big.len());
+		let r = ws.send_text(&big).await;
+		println!("send big: {r:?}");
+		tokio::time::sleep(Duration::from_millis(20)).await;
+		ws.set_reading(true);
+		let r = ws.send_text("{\"jsonrpc\":\"2.0\",\"id\":\"s\",\"method\":\"sentinel\"}").await;
+		println!("send sentinel: {r:?}");
+		let frames = ws.drain_until_idle(Duration::from_secs(10)).await;
+		for f in &frames {
+			println!("frame: {}", f.text());
+		}
+		println!("ended: {:?}", ws.ended);
 	});
 }
